@@ -248,7 +248,24 @@ class Interposer:
         os.stat = path_op("stat", "stat")
         os.lstat = path_op("lstat", "stat")
         os.readlink = path_op("readlink", "stat")
-        os.access = path_op("access", "stat")
+        _access = path_op("access", "stat")
+
+        def access(path: Any, mode: int, **kw: Any) -> bool:
+            r = _access(path, mode, **kw)
+            fake = ip.knobs.get("euid")
+            if not r or fake in (None, 0) or not ip.active:
+                return r
+            # the real process is root, so the kernel says yes to everything; answer as the
+            # pretended user would be answered (owner / other permission bits)
+            try:
+                st = _REAL["stat"](path)
+            except OSError:
+                return r
+            bits = (st.st_mode >> 6) & 7 if st.st_uid == fake else st.st_mode & 7
+            need = (4 if mode & os.R_OK else 0) | (2 if mode & os.W_OK else 0) | (1 if mode & os.X_OK else 0)
+            return (bits & need) == need
+
+        os.access = access  # type: ignore[assignment]
         for nm in ("chown", "lchown"):
             if nm in _REAL:
                 setattr(os, nm, path_op(nm, "chmod"))
@@ -1027,6 +1044,12 @@ def build_tree(root: str, spec: dict[str, Any]) -> None:
     for rel, ent in spec.items():
         if "hl" in ent:  # hard link to another file of the spec
             _REAL["link"](os.path.join(root, ent["hl"]), os.path.join(root, rel))
+    for rel, ent in spec.items():
+        if ent.get("mode") is not None:  # permission bits (read-only, executable, setgid ...)
+            try:
+                _REAL["chmod"](os.path.join(root, rel), int(ent["mode"]))
+            except OSError:
+                pass
     for rel, ent in spec.items():
         if ent.get("xattr"):  # user extended attributes (tags, origin URL ...)
             try:
